@@ -40,7 +40,7 @@ func (rg *registry) viewWrites(info *types.Info, n ast.Node) []string {
 				if ix, ok := t.(*ast.IndexExpr); ok {
 					t = unparen(ix.X)
 				}
-				if fv := fieldOf(info, t); fv != nil && name(fv) != "" {
+				if fv := fieldOf(info, t); fv != nil && name(fv) != "" && !freshLocalObjectAt(info, n, t) {
 					out = append(out, name(fv))
 				}
 			}
@@ -93,7 +93,7 @@ func resolveRegistry(w *World) *registry {
 		ast.Inspect(fi.Decl.Body, func(x ast.Node) bool {
 			if as, ok := x.(*ast.AssignStmt); ok {
 				for _, l := range as.Lhs {
-					if ix, ok := unparen(l).(*ast.IndexExpr); ok && fieldOf(info, ix.X) == rg.services {
+					if ix, ok := unparen(l).(*ast.IndexExpr); ok && fieldOf(info, ix.X) == rg.services && !freshLocalObjectAt(info, as, ix.X) {
 						rg.insert = append(rg.insert, fi)
 					}
 				}
